@@ -1,7 +1,7 @@
 (* C09 -- the pool keeps its size; recycling is harmless (parent side). *)
 From Coq Require Import ZArith List Bool.
 From BV Require Import Lib.Cases Model.LaxSem Model.Restart Model.Pool
-     Proofs.PoolJobs Proofs.PoolInv Proofs.PoolTick Proofs.PoolSup.
+     Proofs.PoolJobs Proofs.PoolInv Proofs.PoolTick Proofs.PoolSup Proofs.PoolIdx.
 Import ListNotations.
 Open Scope Z_scope.
 
@@ -21,6 +21,12 @@ Theorem C09_fresh_index : forall s,
     exists ix, avail_index s = Some ix /\ 0 <= ix < nprocs s /\ ~ In ix (used_idx s).
 Proof. exact avail_index_ok. Qed.
 Print Assumptions C09_fresh_index.
+
+(* ... and so, in every reachable state (any history of exits, supervision passes, grow,
+   shrink, submissions, ...), the workers in the pool hold pairwise distinct slot indices *)
+Theorem C09_indices_distinct : forall c tr, 0 <= c_n c -> NoDup (used_idx (run c tr)).
+Proof. exact indices_distinct. Qed.
+Print Assumptions C09_indices_distinct.
 
 (* worker processes are only ever started by the supervision pass *)
 Theorem C09_only_supervision_starts_workers : forall s e,
